@@ -128,9 +128,17 @@ def build_and_audit(prop, thorough=False):
 def proof_coverage(info):
     names = info["theorems"]
     discharged = 0 if not info["ok"] else len(names)
+    names_s = " ".join(names)
+    if "C20_" in names_s:
+        modelled = "asyncio.Queue's put/get machinery and CPython 3.12 asyncio Tasks are modelled, not verified"
+    elif any(f"C{n}_" in names_s for n in (16, 17, 18, 19)):
+        modelled = ("argparse, inspect, json, ast.literal_eval, asyncio streams/Server and the OS socket layer are modelled "
+                    "or sampled through the real code, not verified")
+    else:
+        modelled = "CPython 3.12 asyncio (Task, Future, Semaphore, Event, gather) is modelled, not verified"
     tb = ["Lean 4.33.0 kernel",
           "axioms: " + "; ".join(f"{k}: {v}" for k, v in sorted(info["axioms"].items())),
-          "hand-written model tied to /repo by the lock-step correspondence check of this run (unverified Python harness)",
-          "CPython 3.12 asyncio (Task, Future, Semaphore, Event, gather) is modelled, not verified"]
+          "hand-written model tied to /repo by the correspondence check of this run (unverified Python harness)",
+          modelled]
     return {"obligations": max(len(names), 1), "discharged": max(discharged, 0), "checker_cmd": info["checker_cmd"],
             "trusted_base": tb, "theorems": names, "proof_problems": info["problems"]}
